@@ -379,11 +379,16 @@ func ssCase(t *rapid.T, gr grp, maxN int) {
 		idx := perm[:size]
 		S := make([]secretsharing.Share, size)
 		for j, i := range idx {
-			S[j] = shares[i]
+			S[j] = secretsharing.Share{ID: shares[i].ID.Copy(), Value: shares[i].Value.Copy()}
 		}
 		var got group.Scalar
 		var err error
 		p, st := vlib.Catch(func() { got, err = secretsharing.Recover(uint(tt), S) })
+		// the share objects handed to Recover are the caller's: overwriting them afterwards must not change the result
+		for j := range S {
+			S[j].ID.SetUint64(0xBAD)
+			S[j].Value.SetUint64(0xBAD)
+		}
 		vlib.Eval(sub + "/recover")
 		idb := []byte(fmt.Sprint(idx))
 		if size <= tt {
